@@ -1,4 +1,5 @@
 package block
 
-// quick: 2 scripted DA answers per submission call; thorough: 3
+// quick: 2 scripted DA answers per header submission call (1 for data), up to 2 pending blocks; thorough: 3 (2) answers, up to 3 pending
 var zzThoroughC06 = false
+var zzC06MaxPending = 2
